@@ -5,7 +5,7 @@ from ..engine import simple_run
 from ..gen.exprs import Gen
 
 SYMS = ['[', ']', '{', '}', '(', ')', '.', ',', ';', ':', '?', '+', '-', '*', '/', '%', '|', '=', '<', '>', '^', '&', '!', '~',
-        '!=', '<=', '>=', '..', '~>', ':=', '**', 'and', 'or', 'in', 'true', 'false', 'null', 'function', 'λ', '$', '$x', '$$', 'a', 'b',
+        '!=', '<=', '>=', '..', '~>', ':=', '**', 'and', 'or', 'in', 'true', 'false', 'null', 'function', 'λ', '$', '$x', '$$', 'a', 'b', '$and', '$or', '$in', '$true', '$false', '$null', '$function',
         '"s"', "'t'", '`q`', '1', '2.5', '1e3', '/re/', '/a(b)/i', ' ', '\n', '\t', '"', "'", '`', '\\', '\\u', 'é', '䑁', '😀', '1.', '.5', '0x1', '1e', '@', '#']
 
 SEEDS = [
